@@ -34,7 +34,7 @@ pub mod evspec {
     /// whose terminal verb is `send` exactly when it returns a reply
     pub open spec fn layer_account(old_ev: Seq<Ev>, new_ev: Seq<Ev>, layer: Layer, sent: bool) -> bool {
         old_ev.len() + 2 <= new_ev.len()
-        && new_ev.subrange(0, old_ev.len() as int) == old_ev
+        && (forall|i: int| 0 <= i < old_ev.len() ==> #[trigger] new_ev[i] == old_ev[i])
         && well_nested(appended(old_ev, new_ev))
         && new_ev[old_ev.len() as int].layer == layer
         && (new_ev.last().verb == Verb::Send <==> sent)
@@ -46,7 +46,6 @@ pub mod evspec {
         ensures layer_account(old_ev, #[trigger] old_ev.push(a).push(b), a.layer, b.verb == Verb::Send)
     {
         let n = old_ev.push(a).push(b);
-        assert(n.subrange(0, old_ev.len() as int) == old_ev);
         let ap = appended(old_ev, n);
         assert(ap == seq![a, b]);
         assert(well_nested(ap));
@@ -64,14 +63,11 @@ pub mod evspec {
         let n = mid2.push(b);
         let ap = appended(old_ev, n);
         let inner_ap = appended(mid1, mid2);
-        assert(mid2.subrange(0, mid1.len() as int) == mid1);
-        assert(n.subrange(0, old_ev.len() as int) == old_ev) by {
-            assert forall|i: int| 0 <= i < old_ev.len() implies n[i] == old_ev[i] by {
-                assert(mid2.subrange(0, mid1.len() as int)[i] == mid1[i]);
-            }
+        assert forall|i: int| 0 <= i < old_ev.len() implies n[i] == old_ev[i] by {
+            assert(mid2[i] == mid1[i]);
         }
         assert(ap[0] == a) by {
-            assert(mid2.subrange(0, mid1.len() as int)[old_ev.len() as int] == mid1[old_ev.len() as int]);
+            assert(mid2[old_ev.len() as int] == mid1[old_ev.len() as int]);
         }
         assert(ap.last() == b);
         assert(ap.subrange(1, ap.len() - 1) == inner_ap);
